@@ -8,7 +8,7 @@ from props.common import load_impl, exc_name
 import worker
 
 RULE = ("random small datasets x methods (neighbor K=1 default/grouped provenance, neighbor K=2 through the ADD path, bruteforce, montecarlo) x utilities "
-        "(accuracy with 1-NN / logistic regression / estimators that draw from numpy's global generator (random-splitter tree, small forest, random_state=None), JointUtility): the same case is scored (a) twice in-process on fresh objects, (b) again after re-seeding and "
+        "(accuracy with 1-NN / logistic regression / estimators that draw from numpy's global generator (random-splitter tree bare and inside a Pipeline, small forest, a custom estimator without random_state; all random_state=None), JointUtility): the same case is scored (a) twice in-process on fresh objects, (b) again after re-seeding and "
         "advancing numpy's and random's global generators, (c) in fresh interpreter processes with PYTHONHASHSEED = 0, 1 and a random value; all score vectors must be "
         "bit-identical (compared as bytes) and montecarlo must draw identical permutations; (d) neighbor and bruteforce must not change when the seed changes; "
         "(e) montecarlo with different seeds but identical (injected) permutations must return identical scores. Non-trivial = the score vector is not constant; "
@@ -46,7 +46,7 @@ def run(ctx):
         m = rng.randint(2 if method == "montecarlo" else 1, 4) if not mc_trunc else rng.randint(6, 10)      # mean_score subsamples half of the validation set: needs >= 2 points
         Xv = np.round(nprng.randn(m, 2), 3).tolist()
         yv = [rng.randrange(c) for _ in range(m)]
-        case = dict(X=X, y=y, Xv=Xv, yv=yv, model=rng.choice(["knn", "logreg", "rtree", "rtree", "rforest"]) if method in ("bruteforce", "montecarlo") else "knn",
+        case = dict(X=X, y=y, Xv=Xv, yv=yv, model=rng.choice(["knn", "logreg", "rtree", "pipe_rtree", "custom_global", "rforest"]) if method in ("bruteforce", "montecarlo") else "knn",
                     joint=(rng.random() < 0.3), method=("neighbor" if method.startswith("neighbor") else method), kw={})
         seed = rng.randrange(10 ** 6) if it % 3 else 0          # 0 is a legitimate seed
         if method == "neighbor" and rng.random() < 0.5:
@@ -64,7 +64,7 @@ def run(ctx):
         if mc_trunc:
             # truncation is steered by utility.mean_score, which fits the model once more: a randomised estimator (random_state=None) makes any
             # unseeded use of the global generator visible in WHERE permutations are cut
-            case["model"] = rng.choice(["rtree", "rforest"])
+            case["model"] = rng.choice(["rtree", "rforest", "pipe_rtree", "custom_global"])
             case["joint"] = False
             case["kw"] = {"mc_iterations": rng.randint(6, 12), "mc_truncation_steps": 1, "mc_tolerance": rng.choice([0.25, 0.5, 1.0]), "seed": seed}
         elif method == "montecarlo":
